@@ -26,6 +26,17 @@ pub enum Tier {
     Thorough,
 }
 
+static GLOBAL_TIER: std::sync::OnceLock<Tier> = std::sync::OnceLock::new();
+
+/// tier of this process (set once by `pv check`; quick for replays and tools)
+pub fn set_global_tier(t: Tier) {
+    let _ = GLOBAL_TIER.set(t);
+}
+
+pub fn global_tier() -> Tier {
+    *GLOBAL_TIER.get().unwrap_or(&Tier::Quick)
+}
+
 impl Tier {
     pub fn name(self) -> &'static str {
         match self {
